@@ -20,3 +20,17 @@ pub open spec fn is_mult(x: int, a: int) -> bool { if a == 0 { x == 0 } else { x
 // address of a buffer (`buf.as_ptr() as usize`, R11 idiom): an allocation address, not simulation state; value unconstrained
 #[verifier::external_body]
 pub fn idiom_buf_addr(buf: &[u8]) -> (a: usize) { unimplemented!() }
+// Mutex::lock with the interior mutability made explicit (R13): the protected value lives in an explicit cell parameter
+// (`cur: &mut u64` for File::cursor) that the extracted methods receive as effect state; `lock` hands out exclusive access
+// to that cell, prophecy-style.  Never contended or poisoned (single-threaded simulation; ASSUMED).  The first effect
+// parameter (`st`, the Fs) is only passed because fxcalls `lock*` passes every effect parameter; it is untouched.
+pub struct PoisonError {}
+impl core::fmt::Debug for PoisonError { #[verifier::external_body] fn fmt(&self, f: &mut core::fmt::Formatter<'_>) -> core::fmt::Result { unimplemented!() } }
+impl<T> Mutex<T> {
+    #[verifier::external_body]
+    pub fn lock<'a, S>(&self, st: &mut S, cell: &'a mut T) -> (r: core::result::Result<&'a mut T, PoisonError>)
+        ensures
+            *final(st) == *old(st),
+            match r { Ok(v) => *v == *old(cell) && *final(cell) == *final(v), Err(_) => false },
+    { unimplemented!() }
+}
